@@ -21,7 +21,15 @@ macro_rules! dispatch {
     ($id:expr, $f:ident ( $($args:expr),* )) => {
         match $id {
             "C03" => $f::<props::c03::C03>($($args),*),
+            "C04" => $f::<props::c04::C04>($($args),*),
+            "C05" => $f::<props::c05::C05>($($args),*),
             "C06" => $f::<props::c06::C06>($($args),*),
+            "C07" => $f::<props::c07::C07>($($args),*),
+            "C08" => $f::<props::c08::C08>($($args),*),
+            "C09" => $f::<props::c09::C09>($($args),*),
+            "C10" => $f::<props::c10::C10>($($args),*),
+            "C18" => $f::<props::c18::C18>($($args),*),
+            "C19" => $f::<props::c19::C19>($($args),*),
             other => {
                 eprintln!("gv: unknown property {other}");
                 3
